@@ -90,8 +90,8 @@ macro_rules! filter_text {
 filter_text!(c07_text_compact, FL1, FL1.len());
 
 //@ harness: c07_text_reordered_ws_unknown
-//@ tier: quick
-//@ timeout: 900
+//@ tier: thorough
+//@ timeout: 3000
 //@ mem: 12
 //@ unwindset: read_id=34; read_pubkey=34; read_hex=66; memcmp.0=34; memchr=12; read_u64=24; burn_string=30; eat_whitespace=6; burn_number=12; json_unescape=8; parse_json_filter=72; c07_=12
 //@ encodes: Filter::from_json, parse_json_filter, burn_key_and_value_after_quote, burn_value, burn_array, burn_object, burn_number, eat_whitespace_and_commas
@@ -256,21 +256,11 @@ fn ref_escape(c: u8, out: &mut [u8; 6]) -> usize {
     }
 }
 
-//@ harness: c07_as_json_text
-//@ tier: quick
-//@ timeout: 2400
-//@ mem: 16
-//@ unwindset: read_id=34; read_pubkey=34; read_hex=66; memcmp.0=34; memchr=12; read_u64=24; burn_string=30; eat_whitespace=6; burn_number=12; json_unescape=8; parse_json_filter=72; c07_=90; json_escape=8; enc_tags=6; put_bytes=8; push=90
-//@ encodes: Filter::as_json, Filter::from_json, json_escape, json_unescape
-//@ bounds: a filter built by Filter::from_parts with one kind (7), since 5, limit 3 and the tag constraint e:[v w] where v, w are single arbitrary ASCII bytes 0x00..=0x7f (quotes, backslashes and control characters included): as_json produces exactly the reference writer's text (valid JSON with canonical NIP-01 escapes). Parsing back is c07_as_json_roundtrip_instances
-//@ outside: non-ASCII values, symbolic integers through format!, ids/authors (hex writer is covered by C03/C20 kernels)
-#[kani::proof]
-#[kani::unwind(8)]
-#[kani::stub(core::panic::Location::caller, stub_caller)]
-fn c07_as_json_text() {
-    let v: u8 = kani::any();
-    let w: u8 = kani::any();
-    kani::assume(v < 0x80 && w < 0x80);
+fn stub_format(_a: core::fmt::Arguments<'_>) -> String {
+    String::new()
+}
+
+fn as_json_text(v: u8, w: u8, with_ints: bool) {
     let pool = [b'e', v, w];
     let shape: [&[usize]; 1] = [&[1, 1, 1]];
     let mut tbuf = [0u8; 24];
@@ -278,7 +268,106 @@ fn c07_as_json_text() {
     let ts: &[u8] = &tbuf[..tl];
     let tags: &Tags = unsafe { &*(ts as *const [u8] as *const Tags) };
     let mut fbuf = [0u8; 64];
-    let f = match Filter::from_parts(&[], &[], &[Kind::from_u16(7)], tags, Some(Time::from_u64(5)), None, Some(3), &mut fbuf) {
+    let kinds = [Kind::from_u16(7)];
+    let r = if with_ints {
+        Filter::from_parts(&[], &[], &kinds, tags, Some(Time::from_u64(5)), None, Some(3), &mut fbuf)
+    } else {
+        Filter::from_parts(&[], &[], &[], tags, None, None, None, &mut fbuf)
+    };
+    let f = match r {
+        Ok(f) => f,
+        Err(e) => {
+            core::mem::forget(e);
+            panic!("from_parts")
+        }
+    };
+    let json = match f.as_json() {
+        Ok(j) => j,
+        Err(e) => {
+            core::mem::forget(e);
+            panic!("as_json")
+        }
+    };
+    let mut r = [0u8; 80];
+    let mut p = 0;
+    let push = |r: &mut [u8; 80], p: &mut usize, s: &[u8]| {
+        let mut i = 0;
+        while i < s.len() {
+            r[*p] = s[i];
+            *p += 1;
+            i += 1;
+        }
+    };
+    if with_ints {
+        push(&mut r, &mut p, b"{\"kinds\":[7],\"#e\":[\"");
+    } else {
+        push(&mut r, &mut p, b"{\"#e\":[\"");
+    }
+    let mut eb = [0u8; 6];
+    let l = ref_escape(v, &mut eb);
+    push(&mut r, &mut p, &eb[..l]);
+    push(&mut r, &mut p, b"\",\"");
+    let l = ref_escape(w, &mut eb);
+    push(&mut r, &mut p, &eb[..l]);
+    if with_ints {
+        push(&mut r, &mut p, b"\"],\"limit\":3,\"since\":5}");
+    } else {
+        push(&mut r, &mut p, b"\"]}");
+    }
+    kani::cover!(v == b'"' && w == b'\\');
+    assert!(json.len() == p);
+    let i: usize = kani::any();
+    kani::assume(i < p);
+    assert!(json[i] == r[i]);
+    core::mem::forget(json);
+}
+
+//@ harness: c07_as_json_text
+//@ tier: quick
+//@ timeout: 1500
+//@ mem: 12
+//@ unwindset: read_id=34; read_pubkey=34; read_hex=66; memcmp.0=34; memchr=12; read_u64=24; burn_string=30; eat_whitespace=6; burn_number=12; json_unescape=8; parse_json_filter=72; c07_=90; json_escape=8; enc_tags=6; put_bytes=8; push=90
+//@ encodes: Filter::as_json, json_escape, Filter::from_parts
+//@ bounds: a filter built by Filter::from_parts with only the tag constraint e:[v w] where v, w are single arbitrary ASCII bytes 0x20..=0x7f (quote and backslash included): as_json produces exactly the reference writer's text {"#e":["v","w"]} with canonical NIP-01 escapes. Control characters (the format! path of json_escape) are excluded by assumption, which is what makes stubbing std::fmt::format sound here; they are decided on instances (c07_as_json_roundtrip_ctl, c07_as_json_text_ints)
+//@ outside: non-ASCII values, control characters and integers through format! (thorough: c07_as_json_text_ints), ids/authors (hex writer is covered by C03/C20 kernels)
+//@ assumes: std::fmt::format stubbed (unreachable under the harness assumption v, w >= 0x20)
+#[kani::proof]
+#[kani::unwind(8)]
+#[kani::stub(core::panic::Location::caller, stub_caller)]
+#[kani::stub(std::fmt::format, stub_format)]
+fn c07_as_json_text() {
+    let v: u8 = kani::any();
+    let w: u8 = kani::any();
+    kani::assume(v >= 0x20 && v < 0x80 && w >= 0x20 && w < 0x80);
+    as_json_text(v, w, false);
+}
+
+//@ harness: c07_as_json_text_ints
+//@ tier: thorough
+//@ timeout: 3600
+//@ mem: 16
+//@ unwindset: read_id=34; read_pubkey=34; read_hex=66; memcmp.0=34; memchr=12; read_u64=24; burn_string=30; eat_whitespace=6; burn_number=12; json_unescape=8; parse_json_filter=72; c07_=90; json_escape=8; enc_tags=6; put_bytes=8; push=90
+//@ encodes: Filter::as_json, json_escape, Filter::from_parts, core::fmt (real integer and \\u00XX formatting)
+//@ bounds: the filter kinds [7], since 5, limit 3, e:[v w] with v, w arbitrary ASCII bytes 0x00..=0x7f (control characters included, real format! code): as_json equals the reference writer's text
+#[kani::proof]
+#[kani::unwind(8)]
+#[kani::stub(core::panic::Location::caller, stub_caller)]
+fn c07_as_json_text_ints() {
+    let v: u8 = kani::any();
+    let w: u8 = kani::any();
+    kani::assume(v < 0x80 && w < 0x80);
+    as_json_text(v, w, true);
+}
+
+fn as_json_roundtrip(v: u8, w: u8) {
+    let pool = [b'e', v, w];
+    let shape: [&[usize]; 1] = [&[1, 1, 1]];
+    let mut tbuf = [0u8; 24];
+    let tl = enc_tags(&shape, &pool, &mut tbuf);
+    let ts: &[u8] = &tbuf[..tl];
+    let tags: &Tags = unsafe { &*(ts as *const [u8] as *const Tags) };
+    let mut fbuf = [0u8; 64];
+    let f = match Filter::from_parts(&[], &[], &[], tags, None, None, None, &mut fbuf) {
         Ok(f) => f,
         Err(e) => {
             core::mem::forget(e);
@@ -293,85 +382,50 @@ fn c07_as_json_text() {
             panic!("as_json")
         }
     };
-    let mut r = [0u8; 80];
-    let mut p = 0;
-    let mut push = |r: &mut [u8; 80], p: &mut usize, s: &[u8]| {
-        let mut i = 0;
-        while i < s.len() {
-            r[*p] = s[i];
-            *p += 1;
-            i += 1;
+    let mut out: [u8; 64] = kani::any();
+    let (consumed, written, f2) = match Filter::from_json(&json, &mut out) {
+        Ok(x) => x,
+        Err(e) => {
+            core::mem::forget(e);
+            panic!("own JSON rejected")
         }
     };
-    push(&mut r, &mut p, b"{\"kinds\":[7],\"#e\":[\"");
-    let mut eb = [0u8; 6];
-    let l = ref_escape(v, &mut eb);
-    push(&mut r, &mut p, &eb[..l]);
-    push(&mut r, &mut p, b"\",\"");
-    let l = ref_escape(w, &mut eb);
-    push(&mut r, &mut p, &eb[..l]);
-    push(&mut r, &mut p, b"\"],\"limit\":3,\"since\":5}");
-    kani::cover!(v == b'"' && w == 0x01);
-    assert!(json.len() == p);
-    let i: usize = kani::any();
-    kani::assume(i < p);
-    assert!(json[i] == r[i]);
+    assert!(consumed == json.len() && written == flen);
+    let k: usize = kani::any();
+    kani::assume(k < flen);
+    assert!(f2.as_bytes()[k] == fbuf[k]);
     core::mem::forget(json);
 }
 
+macro_rules! rt_instance {
+    ($name:ident, $v:expr, $w:expr) => {
+        #[kani::proof]
+        #[kani::unwind(8)]
+        #[kani::stub(core::panic::Location::caller, stub_caller)]
+        fn $name() {
+            as_json_roundtrip($v, $w);
+        }
+    };
+}
 
-//@ harness: c07_as_json_roundtrip_instances
+//@ harness: c07_as_json_roundtrip_qb c07_as_json_roundtrip_nl
 //@ tier: quick
-//@ timeout: 1500
-//@ mem: 14
+//@ timeout: 1200
+//@ mem: 12
+//@ covers: none
 //@ unwindset: read_id=34; read_pubkey=34; read_hex=66; memcmp.0=34; memchr=12; read_u64=24; burn_string=30; eat_whitespace=6; burn_number=12; json_unescape=8; parse_json_filter=72; c07_=12; json_escape=8; enc_tags=6; put_bytes=8
 //@ encodes: Filter::from_parts, Filter::as_json, Filter::from_json
-//@ bounds: the same filter with the tag values (v, w) = (quote, backslash), (0x01, 'a'), (newline, 'z'): as_json then from_json (arbitrary prior buffer) gives a byte-identical filter
-//@ outside: symbolic values through the parser (symbolic escape lengths move the read position)
-#[kani::proof]
-#[kani::unwind(8)]
-#[kani::stub(core::panic::Location::caller, stub_caller)]
-fn c07_as_json_roundtrip_instances() {
-    let vals: [(u8, u8); 3] = [(b'"', b'\\'), (0x01, b'a'), (b'\n', b'z')];
-    let mut n = 0;
-    while n < 3 {
-        let (v, w) = vals[n];
-        let pool = [b'e', v, w];
-        let shape: [&[usize]; 1] = [&[1, 1, 1]];
-        let mut tbuf = [0u8; 24];
-        let tl = enc_tags(&shape, &pool, &mut tbuf);
-        let ts: &[u8] = &tbuf[..tl];
-        let tags: &Tags = unsafe { &*(ts as *const [u8] as *const Tags) };
-        let mut fbuf = [0u8; 64];
-        let f = match Filter::from_parts(&[], &[], &[Kind::from_u16(7)], tags, Some(Time::from_u64(5)), None, Some(3), &mut fbuf) {
-            Ok(f) => f,
-            Err(e) => {
-                core::mem::forget(e);
-                panic!("from_parts")
-            }
-        };
-        let flen = f.len();
-        let json = match f.as_json() {
-            Ok(j) => j,
-            Err(e) => {
-                core::mem::forget(e);
-                panic!("as_json")
-            }
-        };
-        let mut out: [u8; 64] = kani::any();
-        let (consumed, written, f2) = match Filter::from_json(&json, &mut out) {
-            Ok(x) => x,
-            Err(e) => {
-                core::mem::forget(e);
-                panic!("own JSON rejected")
-            }
-        };
-        kani::cover!(n == 2);
-        assert!(consumed == json.len() && written == flen);
-        let k: usize = kani::any();
-        kani::assume(k < flen);
-        assert!(f2.as_bytes()[k] == fbuf[k]);
-        core::mem::forget(json);
-        n += 1;
-    }
-}
+//@ bounds: the tags-only filter e:[v w] with (v, w) = (quote, backslash) / (newline, 'z'): as_json then from_json into a buffer with arbitrary prior contents gives a byte-identical filter
+//@ outside: symbolic values through the parser (symbolic escape lengths move the read position); the \\u00XX spelling (thorough: c07_as_json_roundtrip_ctl)
+rt_instance!(c07_as_json_roundtrip_qb, b'"', b'\\');
+rt_instance!(c07_as_json_roundtrip_nl, b'\n', b'z');
+
+//@ harness: c07_as_json_roundtrip_ctl
+//@ tier: thorough
+//@ timeout: 3000
+//@ mem: 14
+//@ covers: none
+//@ unwindset: read_id=34; read_pubkey=34; read_hex=66; memcmp.0=34; memchr=12; read_u64=24; burn_string=30; eat_whitespace=6; burn_number=12; json_unescape=8; parse_json_filter=72; c07_=12; json_escape=8; enc_tags=6; put_bytes=8
+//@ encodes: Filter::from_parts, Filter::as_json, Filter::from_json, core::fmt
+//@ bounds: the same with (v, w) = (0x01, 'a'): the control character is written as \\u0001 through format! and read back
+rt_instance!(c07_as_json_roundtrip_ctl, 0x01, b'a');
